@@ -297,4 +297,16 @@ Proof.
     inversion Hn as [|? ? Hx Hl]; subst. destruct (Nat.eqb t' t); cbn; auto.
     constructor; auto. rewrite !in_app_iff in *. intros [Hin|Hin]; [|tauto]. apply Hx. left. eapply remove_first_fst_incl; eauto.
 Qed.
+
+Definition KNoDup (S : kst) : Prop := forall k, NoDup (tids (S k)).
+
+Lemma kstep_nodup S l S' g c : KInv S -> KNoDup S -> kstep S l = Some (S', g, c) -> KNoDup S'.
+Proof.
+  intros Hi Hn H k. destruct (Nat.eq_dec k (lab_key l)) as [->|Hne].
+  - apply kstep_at in H. eapply stepo_nodup; eauto.
+  - rewrite (kstep_frame _ _ _ _ _ k H Hne). apply Hn.
+Qed.
+
+Lemma kinit_nodup : KNoDup kinit.
+Proof. intros k. constructor. Qed.
 End Keyed.
